@@ -43,7 +43,7 @@
 (* Defects is the set of deviations of the modelled code from the repaired *)
 (* code: {} is the code with the candidate repairs; the code as found is   *)
 (* {"fastpath_opacity", "blend_alpha", "combine_clip", "opaque_zero",      *)
-(* "combine_range"}.                                                       *)
+(* "combine_range", "clip_bbox", "combine_ssrs"}.                          *)
 (*   fastpath_opacity  merge.py:61-69 returns a single layer as it is even *)
 (*                     when it has an opacity < 1                          *)
 (*   blend_alpha       merge.py:116-118 Image.blend of the RGB conversion: *)
@@ -56,6 +56,12 @@
 (*   combine_range     source/wms.py:164-208 a combined request drops the  *)
 (*                     resolution ranges: a source outside its range is    *)
 (*                     requested and shown when its neighbour is in range  *)
+(*   clip_bbox         image/mask.py:43-45 mask_polygons reads .geom of a  *)
+(*                     BBOXCoverage (None): clipping a layer to a bounding *)
+(*                     box coverage raises -> 500 internal error           *)
+(*   combine_ssrs      srs.py SupportedSRS.__eq__ compared with the empty  *)
+(*                     list of a source without supported_srs raises in    *)
+(*                     _is_compatible -> 500 internal error                *)
 (* Hypothetical ones show that the invariant can fail (sensitivity):       *)
 (*   prune_any, no_bgcolor, reverse_order, drop_opacity, combine_far       *)
 (***************************************************************************)
@@ -67,11 +73,13 @@ CONSTANTS Cat,          \* configured WMS layers: name -> [name, srcs : Seq(Sour
           MaxStack,     \* longest stack
           Opts,         \* request options [tr : BOOLEAN, bg : <<r, g, b>>, zones : SUBSET Zones, res : "fine" | "coarse"]
           AllZones,     \* the window used for stacks without any coverage (all zones of the world)
+          BoxCov,       \* TRUE iff the coverage geometry of the world is a bounding box (BBOXCoverage, no "box" zone)
           Defects,
           Tol           \* tolerance of the property in 1/255
 
 (* Source == [id, kind : "opq" | "rgba" | "pal" | "key", op : NONE | 0..100 (opacity in percent),             *)
-(*            cov : "none" | "P", clip : BOOLEAN, url, rng : "all" | "fine", col : <<r, g, b>>]               *)
+(*            cov : "none" | "P", clip : BOOLEAN, url, rng : "all" | "fine", col : <<r, g, b>>,                *)
+(*            ssrs : BOOLEAN (supported_srs configured)]                                                       *)
 NONE == -1
 Zones == {"in", "box", "out"}
 RegionIds == {"in_s", "in_m", "in_h", "box_s", "box_m", "box_h", "out_s", "out_m", "out_h"}
@@ -151,6 +159,7 @@ Compatible(u, x, o) ==
   LET f == u[1] IN
   /\ "combine_range" \in Defects \/ (InRange(UnitRng(u), o) /\ InRange(x.rng, o))
   /\ f.op = NONE /\ x.op = NONE
+  /\ f.ssrs = x.ssrs
   /\ (f.kind = "key") = (x.kind = "key")              \* transparent_color (one key colour per world)
   /\ f.cov = x.cov                                    \* Coverage.__eq__: geometry only
   /\ ("combine_clip" \in Defects \/ f.cov = "none" \/ f.clip = x.clip)
@@ -239,7 +248,7 @@ Close(p, q) == /\ Abs(p[4] - q[4]) <= Tol
 VARIABLE st
 
 Start(o) == [pc |-> "build", stack |-> <<>>, o |-> o, i |-> 1, actual |-> <<>>, units |-> <<>>, ups |-> <<>>,
-             imgs |-> <<>>, out |-> [r \in Regions(o) |-> White0], path |-> {}]
+             imgs |-> <<>>, out |-> [r \in Regions(o) |-> White0], path |-> {}, status |-> 200]
 Begin(stack, o) == [Start(o) EXCEPT !.stack = stack, !.pc = "select"]
 
 \* service/wms.py:107-117
@@ -255,11 +264,17 @@ SelStep(s) ==
                                        THEN {"prune_invisible"} ELSE {})]
        ELSE [t EXCEPT !.actual = @ \o L.srcs]
 
+\* an exception that reaches wsgiapp.py: 500 internal error, no picture
+Crash(s, note) == [s EXCEPT !.pc = "done", !.status = 500, !.path = @ \cup {note}]
+\* _is_compatible: the opacity test comes first, then `self.supported_srs != other.supported_srs`
+SsrsRaises(u, x) == "combine_ssrs" \in Defects /\ u[1].op = NONE /\ x.op = NONE /\ u[1].ssrs # x.ssrs
+
 \* service/wms.py:851-868 (i runs over the flattened render layers)
 CombStep(s) ==
   IF s.i > Len(s.actual) THEN [s EXCEPT !.pc = "render", !.i = 1]
   ELSE LET x == s.actual[s.i] n == Len(s.units) IN
        IF n = 0 THEN [s EXCEPT !.units = <<<<x>>>>, !.i = @ + 1]
+       ELSE IF SsrsRaises(s.units[n], x) THEN Crash(s, "crash_combine_ssrs")
        ELSE IF Compatible(s.units[n], x, s.o)
          THEN [s EXCEPT !.units[n] = Append(@, x), !.i = @ + 1,
                         !.path = @ \cup {"combine"}
@@ -281,6 +296,8 @@ RenderStep(s) ==
 
 MergeKind(s) == IF s.imgs = <<>> THEN "empty" ELSE IF FastOK(s.imgs, s.o) THEN "fast"
                 ELSE IF s.o.tr THEN "composite" ELSE "paste"
+ClipRaises(s) == /\ BoxCov /\ "clip_bbox" \in Defects /\ MergeKind(s) \in {"composite", "paste"}
+                 /\ \E n \in 1 .. Len(s.imgs) : s.imgs[n].clip
 MergeStep(s) ==
   LET k == MergeKind(s)
       out == CASE k = "empty" -> [r \in Regions(s.o) |-> BgPx(s.o)]
@@ -288,7 +305,8 @@ MergeStep(s) ==
                [] OTHER -> [r \in Regions(s.o) |-> MergePx(s.imgs, r, s.o)]
       notes == {k} \cup (IF k = "fast" /\ Faded(s.imgs[1].op) THEN {"fast_faded"} ELSE {})
                    \cup (IF k = "paste" /\ \E n \in 1 .. Len(s.imgs) : Faded(s.imgs[n].op) THEN {"blend"} ELSE {})
-  IN [s EXCEPT !.pc = "done", !.out = out, !.path = @ \cup notes]
+  IN IF ClipRaises(s) THEN Crash(s, "crash_clip_bbox")
+     ELSE [s EXCEPT !.pc = "done", !.out = out, !.path = @ \cup notes]
 
 Step(s) == CASE s.pc = "select" -> SelStep(s) [] s.pc = "combine" -> CombStep(s)
              [] s.pc = "render" -> RenderStep(s) [] s.pc = "merge" -> MergeStep(s)
@@ -320,8 +338,9 @@ SelectAdd    == Sel /\ InRange(LayerRng(st.stack[st.i]), st.o) /\ ~LayerOpaque(s
 Comb == st.pc = "combine"
 CombineDone  == Comb /\ st.i > Len(st.actual) /\ st' = CombStep(st)
 CombineFirst == Comb /\ st.i <= Len(st.actual) /\ st.units = <<>> /\ st' = CombStep(st)
-CombineMerge == Comb /\ st.i <= Len(st.actual) /\ st.units # <<>> /\ st' = CombStep(st) /\ Len(st'.units) = Len(st.units)
+CombineMerge == Comb /\ st.i <= Len(st.actual) /\ st.units # <<>> /\ st' = CombStep(st) /\ st'.status = 200 /\ Len(st'.units) = Len(st.units)
 CombineKeep  == Comb /\ st.i <= Len(st.actual) /\ st.units # <<>> /\ st' = CombStep(st) /\ Len(st'.units) > Len(st.units)
+CombineRaise == Comb /\ st.i <= Len(st.actual) /\ st.units # <<>> /\ st' = CombStep(st) /\ st'.status = 500
 
 Ren == st.pc = "render"
 RenderDone  == Ren /\ st.i > Len(st.units) /\ st' = RenderStep(st)
@@ -330,18 +349,19 @@ RenderSub   == Ren /\ st.i <= Len(st.units) /\ ~UnitBlank(st.units[st.i], st.o) 
 RenderFull  == Ren /\ st.i <= Len(st.units) /\ ~UnitBlank(st.units[st.i], st.o) /\ ~UnitSub(st.units[st.i], st.o) /\ st' = RenderStep(st)
 
 Mer == st.pc = "merge"
+MergeRaise     == Mer /\ ClipRaises(st) /\ st' = MergeStep(st)
 MergeEmpty     == Mer /\ MergeKind(st) = "empty" /\ st' = MergeStep(st)
 MergeFast      == Mer /\ MergeKind(st) = "fast" /\ st' = MergeStep(st)
-MergeComposite == Mer /\ MergeKind(st) = "composite" /\ st' = MergeStep(st)
-MergePaste     == Mer /\ MergeKind(st) = "paste" /\ st' = MergeStep(st)
+MergeComposite == Mer /\ ~ClipRaises(st) /\ MergeKind(st) = "composite" /\ st' = MergeStep(st)
+MergePaste     == Mer /\ ~ClipRaises(st) /\ MergeKind(st) = "paste" /\ st' = MergeStep(st)
 
 Init == \E o \in Opts : st = Start(o)
 Next == \/ \E n \in Names : AddLayer(n)
         \/ Submit
         \/ SelectSkip \/ SelectOpaque \/ SelectAdd
-        \/ CombineDone \/ CombineFirst \/ CombineMerge \/ CombineKeep
+        \/ CombineDone \/ CombineFirst \/ CombineMerge \/ CombineKeep \/ CombineRaise
         \/ RenderDone \/ RenderBlank \/ RenderSub \/ RenderFull
-        \/ MergeEmpty \/ MergeFast \/ MergeComposite \/ MergePaste
+        \/ MergeEmpty \/ MergeFast \/ MergeComposite \/ MergePaste \/ MergeRaise
 Spec == Init /\ [][Next]_st
 
 (***************************************************************************)
@@ -354,11 +374,12 @@ TypeOK == /\ st.pc \in {"build", "select", "combine", "render", "merge", "done"}
           /\ \A k \in 1 .. Len(st.imgs) : \A r \in Regions(st.o) : PxOK(st.imgs[k].px[r])
 
 \* C14: the picture answered is the full composition
-PictureOK == st.pc = "done" => \A r \in Regions(st.o) : Close(st.out[r], FullPx(st.stack, st.o, r))
+PictureOK == st.pc = "done" => /\ st.status = 200
+                               /\ \A r \in Regions(st.o) : Close(st.out[r], FullPx(st.stack, st.o, r))
 
 \* layers removed by the shortcuts are not requested, combined ones are requested once, in order
 Requested(s) == UNION {{s.ups[k].ls[n] : n \in 1 .. Len(s.ups[k].ls)} : k \in 1 .. Len(s.ups)}
-LogOK == st.pc = "done" =>
+LogOK == st.pc = "done" /\ st.status = 200 =>
            /\ Requested(st) \subseteq {st.actual[k].id : k \in 1 .. Len(st.actual)}
            /\ Len(st.ups) <= Len(st.actual)
            /\ Len(st.imgs) = Len(st.ups)
@@ -370,6 +391,6 @@ RunOK == st.pc \in {"select", "combine", "render", "merge", "done"} => Run(st) =
 Expect(names, o) ==
   LET stack == [k \in 1 .. Len(names) |-> Cat[names[k]]]
       s == Impl(stack, o)
-  IN [out |-> s.out, full |-> Full(stack, o), ups |-> s.ups, path |-> s.path,
-      ok |-> \A r \in Regions(o) : Close(s.out[r], FullPx(stack, o, r))]
+  IN [status |-> s.status, out |-> s.out, full |-> Full(stack, o), ups |-> s.ups, path |-> s.path,
+      ok |-> s.status = 200 /\ \A r \in Regions(o) : Close(s.out[r], FullPx(stack, o, r))]
 =============================================================================
